@@ -425,6 +425,7 @@ Arguments h_params {T}. Arguments h_flops {T}. Arguments h_write {T}. Arguments 
 Arguments h_scores {T}. Arguments h_optlib {T}.
 Arguments best_score_of {T}. Arguments best_flops {T}.
 Arguments e_id {T}. Arguments e_setting {T}. Arguments e_trial {T}.
+Arguments SCont {T}. Arguments SStop {T}. Arguments SCrash {T}.
 
 (* ------------------------------------------------------------------ *)
 (* declarative companion used in statements and by the correspondence:
